@@ -204,6 +204,9 @@ func (l *sparseFileLoader) indexRange(start, length int64) (int, int) {
 
 // Loads all the chunks needed to populate the given byte range (if not already loaded)
 func (l *sparseFileLoader) loadRange(start, length int64) error {
+	if length < 1 || len(l.chunks) == 0 { // nothing to load
+		return nil
+	}
 	first, last := l.indexRange(start, length)
 	var chunksNeeded []int
 	l.mu.RLock()
